@@ -125,6 +125,31 @@ def shared_state_rule(A, rule):
                     if top.qual not in init_like:
                         rule.fail(f, n, f"`{norm(n)[:70]}` stores a per-call value in the shared store object: concurrent calls (and later calls) read and "
                                   "overwrite each other's value", A.p.loc(f, n))
+        # containers held by the store object: only the claim lists of the lock model may be mutated
+        top = f
+        while top.parent is not None:
+            top = top.parent
+        if top.qual in init_like:
+            continue
+        for n in ast.walk(f.node):
+            tgt = None
+            how = None
+            if isinstance(n, ast.Call) and isinstance(n.func, ast.Attribute) and n.func.attr in (
+                    "append", "extend", "insert", "remove", "pop", "clear", "update", "add", "discard", "setdefault", "popitem", "sort", "reverse"):
+                tgt, how = n.func.value, f".{n.func.attr}()"
+            elif isinstance(n, (ast.Assign, ast.AugAssign, ast.Delete)):
+                for t in (n.targets if isinstance(n, (ast.Assign, ast.Delete)) else [n.target]):
+                    if isinstance(t, ast.Subscript):
+                        tgt, how = t.value, "item assignment / deletion"
+            a = self_attr(tgt) if tgt is not None else None
+            if a is None:
+                continue
+            rule.ob()
+            if a in A.sync.lists:
+                continue   # claim lists: the sanctioned shared state, guarded by their conditions
+            rule.inst(f"{f.qual}:{n.lineno} mutates self.{a}")
+            rule.fail(f, n, f"`{norm(n)[:70]}` mutates the container self.{a} of the shared store object ({how}) outside construction: results of "
+                      "later / concurrent calls then depend on it (a memo or cache that nothing keeps consistent with the files)", A.p.loc(f, n))
 
 
 def check_C07(A: Analysis, tier):
